@@ -1,7 +1,7 @@
 import Op2Model.Prt
 import Op2Proofs.ParserLemmas
 /-! Postconditions of parsers: what holds of every value a parser returns (`Post`), closed under the combinators. -/
-namespace Op2.Parser
+namespace Op2.Parser.PrtInv
 open Op2
 
 theorem bind_ok {α β : Type} {p : Parser α} {f : α → Parser β} {xs : Bytes} {b : β} {rest : Bytes}
@@ -85,4 +85,4 @@ theorem decU32_lt (b : Bytes) : decU32 b < 4294967296 := by
 
 theorem post_u32 : Post u32 (fun v => v < 4294967296) := post_map (post_true _) (fun b _ => decU32_lt b)
 
-end Op2.Parser
+end Op2.Parser.PrtInv
